@@ -35,6 +35,10 @@ CORPUS = [
     ("2020.1.5", "YYYY.INC0.INC1", dict(pin_increments=True, pin_date=True), None),
     ("2020.1.5", "YYYY.INC0.INC1", dict(), "2021-01-01"),
     ("1.9.9", "MAJOR.MINOR.PATCH", dict(minor=True), None),
+    ("2021.05.3", "YYYY.0W.PATCH", dict(patch=True), "2021-01-02"),                   # new date in week 0 of the year of a version that is ahead
+    ("2021.5.3", "YYYY.UU.PATCH", dict(patch=True), "2021-01-01"),
+    ("1.2021.03", "MAJOR.YYYY.0W", dict(major=True), "2021-01-02"),
+    ("1.2.3-beta3", "MAJOR.MINOR.PATCH[-TAGNUM]", dict(tag="beta", tag_num=True), None),   # same tag again: NUM keeps counting
     ("1.9.99-beta", "MAJOR.MINOR[.PATCH][-TAG]", dict(minor=True), None),
 ]
 RESET_INIT = {"major": 0, "minor": 0, "patch": 0, "num": 0, "inc0": 0, "inc1": 1}
@@ -141,6 +145,49 @@ def check_spec(rep, impl, old, pattern, fl, date, new):
             return
 
 
+def expected_success(impl, old, pattern, fl, date):
+    """When the documented rules give a valid, strictly greater version, returns its text (else None)."""
+    from bumpver import version
+    import lexid
+    try:
+        old_v = impl.v2version.parse_version_info(old, pattern)
+    except Exception:
+        return None
+    if fl["tag"] is not None and fl["tag"] not in ("alpha", "beta", "dev", "rc", "post", "final"):
+        return None
+    if (fl["major"] and "MAJOR" not in pattern) or (fl["minor"] and "MINOR" not in pattern) or (fl["patch"] and "PATCH" not in pattern):
+        return None
+    if fl["tag_num"] and (fl["tag"] or old_v.tag) == "final":
+        return None
+    if not impl.v2version.is_valid_week_pattern(pattern):
+        return None
+    exp = spec_incr(impl, old_v, pattern, fl, date)
+    try:
+        bid = old_v.bid
+        if int(bid) < 1000:
+            bid = str(int(bid) + 1000)
+        exp["bid"] = lexid.next_id(bid)
+    except Exception:
+        return None
+    # parts the pattern does not show keep flowing through the record as the code does; only shown fields matter for the text
+    try:
+        new_v = old_v._replace(**exp)
+        text = impl.v2version.format_version(new_v, pattern)
+        if not text or text == old:
+            return None
+        impl.v2version.parse_version_info(text, pattern)
+    except Exception:
+        return None
+    try:
+        from packaging import version as pk
+        if not (pk.Version(text) > pk.Version(old)):
+            return None
+    except Exception:
+        if not (version.parse_version(text) > version.parse_version(old)):
+            return None
+    return text
+
+
 def gen_case(r, impl):
     pat, info = v2gen.gen_pattern(r)
     v, d = v2gen.gen_state(r, impl)
@@ -203,6 +250,11 @@ def run(rep, tier, seed, model_ok=True, effort=1, for_c01=False):
         eff_date = nd if (use_date and nd is not None and date_arg == nd.isoformat()) else impl.PINNED_TODAY
         if code == 0 and new and info["wf"] and (date_arg is None or (nd is not None and date_arg == nd.isoformat())):
             check_spec(rep, impl, old, pat, fl, eff_date, new)
+        if code != 0 and exc is None and info["wf"] and (date_arg is None or (nd is not None and date_arg == nd.isoformat())) and not (fl["pin_date"] and date_arg):
+            want = expected_success(impl, old, pat, fl, eff_date)
+            if want is not None:
+                rep.violation("bump refused although the documented rules give the greater version %r" % want,
+                              input=dict(old=old, pattern=pat, flags=fl, date=str(eff_date), new=None), **{"class": "refused"})
         # Coq case
         if date_arg is None:
             cdate = "None"
